@@ -477,7 +477,7 @@ def run_k13(chk, tier):
     icons, topper = shipped_icons()
     mism, errs, details = [], [], {}
 
-    def evaluate(name, chkname, cases, raw, shard=100, pre=PRE):
+    def evaluate(name, chkname, cases, raw, shard=12, pre=PRE):
         m, e, _ = coq_eval(chk.prop, name, IMPORTS13, chkname, cases, shard=shard, pre=pre)
         details[name] = {"cases": len(cases), "mismatches": len(m)}
         for i in m[:5]:
@@ -553,6 +553,42 @@ def run_k13(chk, tier):
     for name, (cs, rw) in sorted(by.items()):
         evaluate("k_" + name[4:], name, cs, rw)
 
+    # ---- directory rows with the payload in every slot (HTTP and WAP getrenderstr through renderobjinfo) ----
+    pin_http, pin_wap = probe_pinned()
+    details["variant"] = {"http_row": "pinned" if pin_http else "repaired", "wap_row": "pinned" if pin_wap else "repaired"}
+    rents = []
+    for p in payloads:
+        q = p.replace("\n", " ")
+        rents += [{"selector": "/s" + p, "type": "0", "name": p, "mimetype": "a/" + p},
+                  {"selector": "URL:http://www.example.com/" + q, "type": "h", "name": "U " + p},
+                  {"selector": "/r" + p, "type": "1", "name": "R " + p, "host": "h" + p + ".example", "port": 7070},
+                  {"selector": "/q" + p, "type": "7", "name": "Q " + p, "mimetype": p},
+                  {"selector": "fake", "type": "i", "name": p, "host": "(NULL)", "port": 0},
+                  {"selector": "/n" + p, "type": "0", "name": None}]
+    rc = []
+    for i, f in enumerate(rents):
+        rc.append({"proto": "http", "entry": js_entry(f)})
+        rc.append({"proto": "wap", "entry": js_entry(f), "key": i % 14, "post": i % 5})
+    rr = _split(rc, "c06_rows", {"config": {}, "srvname": L(SRV), "srvport": 70})
+    hc, hraw, wc, wraw = [], [], [], []
+    for c, o in zip(rc, rr):
+        f = rents[len(hc) if c["proto"] == "http" else len(wc)]
+        out = S(o["out"])
+        chk.count(("row13", c["proto"], repr(f)), nontrivial=out is not None)
+        if c["proto"] == "http":
+            hc.append("(((%s, (icons, %s)), %s), %s)" % (coq_bool(pin_http), coq_str(SRV), cq_entry(f), cq_ostr(out)))
+            hraw.append({"protocol": "http", "entry": f, "impl": out, "exc": o["exc"]})
+        else:
+            res_ = "None" if out is None else "(Some (%s, (%d%%nat, %d%%nat)))" % (coq_str(out), o["key"], o["post"])
+            wc.append("((((%s, (%s, %s)), (%d%%nat, %d%%nat)), %s), %s)" % (
+                coq_bool(pin_wap), coq_str("/wap"), coq_str(SRV), c["key"], c["post"], cq_entry(f), res_))
+            wraw.append({"protocol": "wap", "entry": f, "impl": out, "exc": o["exc"]})
+        if out is not None:
+            pages.append((c["proto"] + ":row", out))
+    pre_icons = PRE + "Definition icons : list (str * str) := %s.\n" % cq_pairs(icons)
+    evaluate("k_http_row", "chk_http_row", hc, hraw, pre=pre_icons)
+    evaluate("k_wap_row", "chk_wap_row", wc, wraw, pre=pre_icons)
+
     # ---- the tokenizer on real traffic: pages of the C13 worlds and the rows / pages built above ----
     import c13
     wp = ['"><img src=x onerror=alert(1)>', "a&b <i>x</i> 'q'", c13.INERT]
@@ -591,7 +627,7 @@ def run_k13(chk, tier):
         cases.append("(%s, %s)" % (coq_str(text), coq_list(cq_event(ev) for ev in evs)))
         raw.append({"page_from": label, "page": text[:600], "html_parser_skeleton": repr(evs)[:600]})
         chk.count(("skeleton", text), nontrivial=len(evs) > 0)
-    evaluate("k_skeleton", "chk_skeleton", cases, raw, shard=10)
+    evaluate("k_skeleton", "chk_skeleton", cases, raw, shard=36)
     # rows of the HTTP listings as validators.html_rows reads them
     cases, raw = [], []
     for proto, text, body in listing_pages:
